@@ -6,7 +6,28 @@ sys.path.insert(0, os.path.join(os.path.dirname(__file__), '..'))
 from harness import c06
 from concurrent.futures import ProcessPoolExecutor
 
+def measure_extra():
+    """Only the further media (c06.extra_configs): merged into the baseline."""
+    jobs = [(lap, med, cyc, nu, shp) for (lap, med, cyc, nu) in
+            c06.extra_configs() for shp in ((8, 8, 8), (16, 16, 16),
+                                            (32, 32, 32), (16, 24, 40))]
+    with ProcessPoolExecutor(max_workers=12) as ex:
+        res = list(ex.map(c06._one, jobs, chunksize=1))
+    base = json.load(open(c06.BASELINE))
+    for (lap, tri, cyc, nu, shp), (g, ncyc, errs) in res:
+        base['factors'].setdefault(c06.key_of(lap, tri, cyc, nu), {})[
+            'x'.join(map(str, shp))] = round(float(g), 4)
+    head = subprocess.run(['git', '-C', '/repo', 'rev-parse', '--short', 'HEAD'],
+                          capture_output=True, text=True).stdout.strip()
+    base['extra_media_measured_on'] = f'/repo {head}'
+    json.dump(base, open(c06.BASELINE, 'w'), indent=1, sort_keys=True)
+    print(len(jobs), 'measurements merged into', c06.BASELINE)
+
+
 if __name__ == '__main__':
+    if sys.argv[1:] == ['extra']:
+        measure_extra()
+        sys.exit(0)
     jobs = []
     for (lap, tri, cyc, nu) in c06.all_configs():
         for n in (8, 16, 32, 64):
